@@ -547,3 +547,11 @@ Proof.
   intros Hd Hs Et Ep. eapply parser_output_clean; [|eapply tokenize_plain; eauto|exact Ep].
   eapply tokenize_W; exact Et.
 Qed.
+
+(* from the abbreviation text: convert is the wrap spec, whatever the text, the wrap lines and the limit *)
+Theorem convert_text_full jsx env max_repeat s toks root :
+  tokenize s = TOk toks -> parse jsx toks = POk root ->
+  convert env max_repeat root = Ok (convert_w env max_repeat root).
+Proof.
+  intros Ht Ep. apply convert_wrap_full. exact (parser_output_printable jsx s toks root Ht Ep).
+Qed.
